@@ -270,6 +270,7 @@ static Sweep mk( const std::string & name, const std::vector<std::string> & fr, 
 static std::vector<Sweep> sweepsFor( Kind k, int tier ) {
     std::vector<Sweep> v;
     int d = tier;    // length bonus
+    int dc = tier >= 1 ? tier + 1 : tier;   // the non-numeric kinds are cheap: thorough goes two beyond quick
     static const char * const W_INT[] = { "-", "+", "0", "1", "9", ".", " ", "9223372036854775806", "9223372036854775807", "9223372036854775808",
                                           "9223372036854775809", "99999999999999999999", "2147483647", "2147483648", "4294967296",
                                           "18446744073709551616", "18446744073709551617", 0
@@ -300,28 +301,28 @@ static std::vector<Sweep> sweepsFor( Kind k, int tier ) {
             v.push_back( mk( "words", words( k == K_INT ? W_INT : W_REAL ), k == K_INT ? 3 + ( d > 0 ) : 3 + ( d > 0 ), 64, 64, false ) );
             break;
         case K_STR:
-            v.push_back( mk( "chars", chars( "'\\SXP024Aa" ), 6 + d, 6 + d, 4 + d, true ) );
+            v.push_back( mk( "chars", chars( "'\\SXP024Aa" ), 6 + dc, 6 + dc, 4 + d, true ) );
             v.push_back( mk( "chars+", chars( std::string( "'\\SXA0a,) \"\n$" ) + "\x80" ), 4 + d, 4 + d, 4 + d, true ) );
             v.push_back( mk( "words", words( W_STR ), 4 + ( d > 0 ), 64, 64, false ) );
             break;
         case K_BIN:
-            v.push_back( mk( "chars", chars( "\"0134AFag" ), 6 + d, 6 + d, 4 + d, true ) );
+            v.push_back( mk( "chars", chars( "\"0134AFag" ), 6 + dc, 6 + dc, 4 + d, true ) );
             v.push_back( mk( "chars+", chars( "\"0134AFag $*'." ), 4 + d, 4 + d, 4 + d, true ) );
             v.push_back( mk( "words", words( W_BIN ), 4 + ( d > 0 ), 64, 64, false ) );
             break;
         case K_ENUM:
-            v.push_back( mk( "chars", chars( ".ATE1_at" ), 6 + d, 6 + d, 4 + d, true ) );
+            v.push_back( mk( "chars", chars( ".ATE1_at" ), 6 + dc, 6 + dc, 4 + d, true ) );
             v.push_back( mk( "chars+", chars( ".ATE1_at $*'-" ), 4 + d, 4 + d, 4 + d, true ) );
             v.push_back( mk( "words", words( W_ENUM ), 4 + ( d > 0 ), 64, 64, false ) );
             break;
         case K_BOOL:
         case K_LOG:
-            v.push_back( mk( "chars", chars( ".TFUtfu1" ), 6 + d, 6 + d, 4 + d, true ) );
+            v.push_back( mk( "chars", chars( ".TFUtfu1" ), 6 + dc, 6 + dc, 4 + d, true ) );
             v.push_back( mk( "chars+", chars( ".TFUtfu1 $*_x" ), 4 + d, 4 + d, 4 + d, true ) );
             v.push_back( mk( "words", words( W_LOG ), 4 + ( d > 0 ), 64, 64, false ) );
             break;
         case K_REF:
-            v.push_back( mk( "chars", chars( "#019@-+a" ), 6 + d, 6 + d, 4 + d, true ) );
+            v.push_back( mk( "chars", chars( "#019@-+a" ), 6 + dc, 6 + dc, 4 + d, true ) );
             v.push_back( mk( "chars+", chars( "#019@-+a $*.'" ), 4 + d, 4 + d, 4 + d, true ) );
             v.push_back( mk( "words", words( W_REF ), 4 + ( d > 0 ), 64, 64, false ) );
             break;
